@@ -243,28 +243,7 @@ def _auto_op(op):
     return run
 
 
-def _line_xcopy(impl, mid, a):
-    """`dd._copy.copy_bdd(u, target)`: the copy through the public `Function` interface."""
-    a, outs = ca._split_outs(a)
-    other = ca._A(impl)[int(a[1])]
-    r = _copy.copy_bdd(ca._h(impl, a[0]), other)
-    return ca._store(impl, outs[0], r)
-
-
-def _line_xcopy_from(impl, mid, a):
-    """`dd._copy.copy_bdds_from(roots, target)` (one memo for all roots)."""
-    a, outs = ca._split_outs(a)
-    other = ca._A(impl)[int(a[1])]
-    rs = _copy.copy_bdds_from([ca._h(impl, x) for x in split1(a[0])], other)
-    if len({id(r) for r in rs}) != len(rs):
-        raise RuntimeError('HARNESS: the same Function object returned twice (duplicate roots)')
-    out = [ca._store(impl, hid, r) for hid, r in zip(outs, rs)]
-    rs = None
-    return ','.join(out)
-
-
-implmod.EXT_LINE_OPS['a_xcopy'] = _line_xcopy
-implmod.EXT_LINE_OPS['a_xcopy_from'] = _line_xcopy_from
+# `a_xcopy` / `a_xcopy_from` (`dd._copy.copy_bdd`, `copy_bdds_from`) live in checks_auto.py
 
 API_AUTO_OPS = ['f_count', 'f_pick', 'a_pick', 'f_exist', 'f_forall', 'f_let_b', 'f_let_r', 'f_let_n',
                 'f_hash', 'f_str', 'a_var_at_level', 'a_level_of_var', 'a_var_levels', 'a_add_expr',
@@ -1290,7 +1269,8 @@ def _xcopies(ctx, t_end):
                     x = rng.choice(hs0)
                     out = h.fresh()
                     ans = h.call(0, 'a_xcopy', f'h{x}', 1, outs=[out], dst=1)
-                    pairs = [(x, h.s.val(ans))]
+                    nodes = ca.xcopy_nodes(ans)
+                    pairs = [(x, nodes[0][0] if nodes else None)]
                 else:
                     # distinct nodes (the same root twice yields the same Function object twice)
                     by_node = {}
@@ -1299,7 +1279,8 @@ def _xcopies(ctx, t_end):
                     xs = rng.sample(sorted(by_node.values()), rng.randint(1, min(4, len(by_node))))
                     outs = [h.fresh() for _ in xs]
                     ans = h.s.op(0, 'a_xcopy_from', ','.join(f'h{x}' for x in xs), 1, '->', *[f'h{o}' for o in outs])
-                    res = [int(t) for t in ans[3:].split(',')] if ans.startswith('ok ') else [None] * len(xs)
+                    nodes = ca.xcopy_nodes(ans)
+                    res = [n for n, _ in nodes] if nodes else [None] * len(xs)
                     for o, r in zip(outs, res):
                         if r is not None:
                             h._register(o, 1, r)
